@@ -225,6 +225,10 @@ def run(ctx):
     for oid, clause in rej:
         w, dump, r = info[oid]
         cl = clause.partition('@')[0]
+        if cl not in ('process-column', 'raised'):
+            # which traces are listed is C13's / C04's statement; C14 pins the process column of the lines
+            ctx.extra['deviations_left_to_other_checks'] = ctx.extra.get('deviations_left_to_other_checks', 0) + 1
+            continue
         ctx.violation('C14/%s/formatted_traces' % cl, 'dump %s: %s %s' % (oid, cl, r.get('err', '')),
                       {'kind': 'pipeline', 'file_hex': dump.blob.hex(), 'stream': describe(w, dump.stream)})
     ctx.evaluations = ncompose + nv
